@@ -115,10 +115,17 @@ def run(prog: Program, res: Result, tier: str) -> None:
     add = cs.methods.get("__add__")
     if add is None:
         raise AnalysisError("ChannelStats.__add__ not found")
-    src = norm(add.node)
-    oka = "combined = ChannelStats(self.nchans, self.nsamps + other.nsamps)" in src and \
-        "kernels.add_online_moments(self._moments, other._moments, combined._moments)" in src and "return combined" in src and \
-        "if not isinstance(other, ChannelStats):" in src
+    from ..normalform import canon, normal_form
+    nfa = normal_form(add)
+    fresh = [e for e in nfa.effects if e.kind == "set" and e.target.startswith("$o") and e.text() == canon("ChannelStats(self.nchans, self.nsamps + other.nsamps)")]
+    oka = len(fresh) == 1
+    if oka:
+        o = fresh[0].target
+        merges = nfa.calls("kernels.add_online_moments")
+        oka = len(merges) == 1 and merges[0].text() == f"kernels.add_online_moments(self._moments, other._moments, {o}._moments)" and \
+            [e.text() for e in nfa.returns()] == [o] and nfa.before(fresh[0], merges[0]) and \
+            any(e.under("not isinstance(other, ChannelStats)") for e in nfa.raises()) and \
+            not [e for e in nfa.effects if e.kind == "set" and e.target.startswith(o) and e is not fresh[0]]
     (res.ok if oka else res.bad)("R3", add, add.node, "a + b merges both moment arrays into a fresh accumulator with nsamps = sum" if oka else
                                  "ChannelStats.__add__ no longer merges (self, other) into a fresh accumulator with the summed sample count",
                                  construct="__add__", key="__add__")
